@@ -217,3 +217,19 @@ pub fn shutdown_workers() {
         verif_thread_exit(t);
     }
 }
+
+#[no_mangle]
+pub extern "C" fn verif_slots_all_empty() -> bool {
+    #[cfg(arc_swap_verif)]
+    {
+        const NONE: usize = 0b11;
+        arc_swap::verif_hooks::node_snapshot()
+            .iter()
+            .all(|n| n.fast.iter().all(|s| *s == NONE) && n.helping == NONE)
+    }
+    #[cfg(not(arc_swap_verif))]
+    {
+        println!("NO-HOOKS node_snapshot unavailable");
+        std::process::exit(5);
+    }
+}
